@@ -696,7 +696,8 @@ func registerExterns(w *World) {
 		rt := c.fn.Signature.Results()
 		c.k(st, Val{K: KTuple, Fs: []Val{term(m, rt.At(0).Type()), term(e, errT)}})
 	})
-	w.ext("github.com/elastic/go-libaudit/v2/aucoalesce.CoalesceMessages", "CoalesceMessages(msgs): (event, err) with exactly one of them nil; ghost g_co_event / g_co_err", func(ex *Exec, st *State, c *callCtx) {
+	w.ext("github.com/elastic/go-libaudit/v2/aucoalesce.CoalesceMessages", "CoalesceMessages(msgs): (event, err) with exactly one of them nil; ghost g_co_event / g_co_err; assert_at CoalesceMessages sees the argument as `records`", func(ex *Exec, st *State, c *callCtx) {
+		ex.assertAt(st, "CoalesceMessages", map[string]Val{"records": c.args[0]})
 		ev, e := oneOf(ex, st, c, "coalesced")
 		st.setRegion("G!g_co_event", "Int", ev)
 		st.setRegion("G!g_co_err", "Int", e)
